@@ -803,6 +803,34 @@ let c19_backupm t =
     let same = List.for_all2 (fun r r' -> author d r = author dst r') d.b_clock dst.b_clock in
     "bak " ^ fmt bak ^ " # dst " ^ fmt dst ^ " authors_same=" ^ sb same
 
+
+(* ---------- C20: write pool ---------- *)
+(* pool <nops> { H | R | Q p id | C id | W ms } : the dispatcher runs whenever it can; a task that
+   was granted the connection outside a hold releases it before the next operation *)
+let c20_poolm t =
+  let nops = ti t in
+  let st = ref pool_init in
+  let held0 = ref false in
+  (* run the dispatcher; holders other than the scripted hold (id 0) release on their own *)
+  let rec settle () =
+    match !st.holder with
+    | Some h -> if int_of_z h = 0 && !held0 then () else begin st := wp_step !st Release; settle () end
+    | None ->
+      if int_of_nat (waiting !st) > 0 then begin st := wp_step !st Dispatch; settle () end in
+  for _ = 1 to nops do
+    (match tok t with
+     | "H" -> st := wp_step !st (Req (PHigh, Z0)); held0 := true; settle ()
+     | "R" -> if !held0 then begin held0 := false; (match !st.holder with Some h when int_of_z h = 0 -> st := wp_step !st Release | _ -> ()) end; settle ()
+     | "Q" -> let p = (match ti t with 0 -> PHigh | 1 -> PNormal | _ -> PLow) in let id = tz t in
+       st := wp_step !st (Req (p, id)); settle ()
+     | "C" -> let id = tz t in st := wp_step !st (Cancel id); settle ()
+     | "W" -> let _ = ti t in ()
+     | x -> failwith ("bad op " ^ x))
+  done;
+  if !held0 then begin held0 := false; (match !st.holder with Some h when int_of_z h = 0 -> st := wp_step !st Release | _ -> ()) end;
+  settle ();
+  "grants=" ^ join "," sz !st.grants ^ " waiting=" ^ string_of_int (int_of_nat (waiting !st))
+
 (* ---------- dispatch ---------- *)
 let handlers : (string * (toks -> string)) list ref = ref [
   "chunks", c08_chunks;
@@ -817,6 +845,7 @@ let handlers : (string * (toks -> string)) list ref = ref [
   "chk_members", c18_chk;
   "crdtm", c01_crdtm;
   "ivm", c11_ivm;
+  "pool", c20_poolm;
   "backupm", c19_backupm;
   "sublife", c13_sublife;
   "catchup", c12_catchup;
